@@ -155,13 +155,20 @@ package shaping
 // appended; and the run whose last glyph is trimmed is the visually last one in paragraph direction whenever the
 // ordering assigns that position to some run.
 //@ spec visuallyLast(dir di.Direction, n int) int = ite(bool(dir.Progression()), 0, n-1)
-//@ func LineWrapper.postProcessLine C08
+//@ func LineWrapper.postProcessLine C08 C02
 //@   mode int
 //@   requires len(finalLine) < 2147483647 && l.breaker != nil
 //@   ensures [range] forall(k, 0, len(result0.Line), 0 <= int(result0.Line[k].VisualIndex) && int(result0.Line[k].VisualIndex) < len(result0.Line))
 //@   ensures [same-direction-fixed] forall(k, 0, len(result0.Line), implies(!oppRun(result0.Line, old(l.config.Direction), k), int(result0.Line[k].VisualIndex) == basePos(old(l.config.Direction), len(result0.Line), k)))
 //@   ensures [all-opposite-reversed] implies(forall(k, 0, len(result0.Line), oppRun(result0.Line, old(l.config.Direction), k)), forall(k, 0, len(result0.Line), int(result0.Line[k].VisualIndex) == basePos(old(l.config.Direction), len(result0.Line), len(result0.Line)-1-k)))
 //@   ensures [truncator-last] implies(len(result0.Line) != len(finalLine0), len(result0.Line) == len(finalLine0)+1)
+//   C02 ("... together with the reported truncated count, cover the paragraph exactly once"): the next line starts
+//   where the logically last run of this line ends; when the line budget is exhausted the runes that were not laid
+//   out are all reported as truncated and the paragraph is done.
+//@   ensures [next-line-start] result0.NextLine == l.lineStartRune && implies(len(finalLine0) > 0, l.lineStartRune == old(finalLine0[len(finalLine0)-1].Runes.Offset) + old(finalLine0[len(finalLine0)-1].Runes.Count)) && implies(len(finalLine0) == 0, l.lineStartRune == old(l.lineStartRune))
+//@   ensures [truncated-count] result0.Truncated == ite(old(l.truncating) && old(l.config.TruncateAfterLines) == 1, old(l.breaker.totalRunes) - l.lineStartRune, 0)
+//@   ensures [done] result1 == (done0 || l.lineStartRune >= old(l.breaker.totalRunes) || (old(l.truncating) && old(l.config.TruncateAfterLines) == 1))
+//@   ensures [more] implies(result1, !l.more)
 //@   modifies unspecified
 //@   loop 1 invariant [goal] 0 <= goalIdx && goalIdx < len(finalLine) && goalIdx == visuallyLast(l.config.Direction, len(finalLine))
 //@   loop 1 invariant [not-yet] forall(k, 0, rangeindex+1, int(finalLine[k].VisualIndex) != visuallyLast(l.config.Direction, len(finalLine)))
